@@ -291,8 +291,15 @@ func TestProofOfWork(t *testing.T) {
 		// reference verdict
 		target := refCompactToBig(h.Bits)
 		hv := refHashToBig([32]byte(hash))
+		hashBefore := hash
 		if got := blockchain.HashToBig(&hash); got.Cmp(hv) != 0 {
 			t.Fatalf("HashToBig(%s) = %x, little-endian value %x", hash, got, hv)
+		}
+		if hash != hashBefore {
+			t.Fatalf("HashToBig changed the hash it was given: %x -> %x", hashBefore[:], hash[:])
+		}
+		if got := blockchain.HashToBig(&hash); got.Cmp(hv) != 0 {
+			t.Fatalf("second HashToBig(%s) = %x, little-endian value %x", hash, got, hv)
 		}
 		want, cl := true, "accept"
 		switch {
